@@ -499,6 +499,8 @@ type runner struct {
 	// regDead: a forced schedule of the registry stream hung (reported as schedule:hang with its
 	// replay); the rest of that stream is skipped — every further case would wait out the same 20 s
 	regDead bool
+	// outDead: the same for the output stream (round 8)
+	outDead bool
 }
 
 // runBatch plays every case of the batch on one server, the solo runs on another.
@@ -977,6 +979,8 @@ func Run(c *vh.Ctx) {
 			rn.replayFlightCase(c.ReplayRaw)
 		case "reg":
 			rn.replayRegCase(c.ReplayRaw)
+		case "out":
+			rn.replayOutCase(c.ReplayRaw)
 		case "load":
 			var lc loadCase
 			if err := json.Unmarshal(c.ReplayRaw, &lc); err != nil {
@@ -1033,6 +1037,10 @@ func Run(c *vh.Ctx) {
 		}
 		return
 	}
+	if os.Getenv("C11_ONLY") == "out" { // development aid: only the output stream
+		outputStreams(rn)
+		return
+	}
 	if os.Getenv("C11_ONLY") == "flight" { // development aid: only the in-flight stream
 		flightStreams(rn, factsLine)
 		depthLoadStreams(c, flightLimits(factsLine))
@@ -1048,6 +1056,11 @@ func Run(c *vh.Ctx) {
 	// 0c. the registry stream: requests parked between attaching their per-request state (onFormat
 	// slot, attribute bag) and using it, while others attach, detach and finish
 	registryStreams(rn)
+
+	// 0d. the output stream: handlers and a middleware that echo / print / printf / var_dump / emit inline
+	// HTML / buffer output around two gates, every interleaving (nested and overlapped); response and
+	// the server process's stdout attributed turn by turn
+	outputStreams(rn)
 
 	// 1. the negation witnesses of the property file, one server each
 	for _, w := range witnesses() {
